@@ -1,5 +1,6 @@
 import CoapLite.Driver.Util
 import CoapLite.Model.LinkFormat
+import CoapLite.Model.LinkLow
 
 namespace CoapLite.Driver
 open CoapLite Link
@@ -43,6 +44,15 @@ def lf (ws : List String) : String :=
   match ws with
   | ["parse", h] =>
       let input := charsOfHex h
+      -- the low-level models of both parsers (byte offsets from pointer differences, `&str` slicing that
+      -- panics off a character boundary) are run as well; they must agree (C17 proves they do)
+      let lowLinks := decide (LinkLow.linkAllLow (input.length + 1) input =
+        .ok ((parseLinks input).map LinkLow.itemChars))
+      let lowAttrs := (parseLinks input).all (fun it => match it with
+        | .link _ a => decide (LinkLow.attrAllLow (a.s.length + 1) a.s =
+            .ok ((parseAttrs a).map (fun kv => (kv.1.s, kv.2.s))))
+        | .error => true)
+      if !(lowLinks && lowAttrs) then "LOW-LEVEL-MODEL-DISAGREES" else
       showItems input (parseLinks input)
   | ["cow", h] =>
       let s := charsOfHex h
